@@ -10,6 +10,15 @@ pub const SPARSE_SELECTORS: &[&str] = &[
 
 /// observer-only handler configuration (never mutates)
 pub fn observers(t: &mut Tape<'_>, cfg: &mut Cfg, max_sels: usize, max_docs: usize) {
+    // occasionally many registrations: never-matching fillers first, so that the real handlers
+    // get ids beyond one or two 32-bit words of the VM's match sets
+    if max_sels > 0 && t.chance(1, 12) {
+        let n = *t.pick(&[30usize, 31, 32, 33, 63, 64, 65]);
+        for k in 0..n {
+            let sel = match k % 3 { 0 => format!("zfill{k}"), 1 => format!("zfill{k}[zz]"), _ => format!("p > zfill{k}") };
+            cfg.sels.push(SelSpec { sel, el: true, end_tag: k % 2 == 0, text: k % 4 == 0, comments: k % 5 == 0, ops: vec![] });
+        }
+    }
     let ns = t.range(0, max_sels);
     for _ in 0..ns {
         // mostly the fixed pool (shared prefixes, known text-mode / foreign elements); one in
